@@ -8,6 +8,7 @@ package sim
 import (
 	"fmt"
 	"runtime"
+	"sort"
 	"strconv"
 	"strings"
 	"sync"
@@ -146,7 +147,12 @@ func (s *Sched) Park(label string) { s.park(label, false, false) }
 // ParkIdle is the idle point of a daemon (dispatcher worker about to poll).
 func (s *Sched) ParkIdle(label string) { s.park(label, true, true) }
 
-func (s *Sched) park(label string, adopt bool, idle bool) {
+func (s *Sched) park(label string, adopt bool, idle bool) { s.parkNamed(label, "worker", adopt, idle) }
+
+// parkNamed: as park; an adopted goroutine is named prefix#k (k-th with that
+// prefix), so that workers are identified by what they serve, not by the order
+// in which the Go runtime happened to start them.
+func (s *Sched) parkNamed(label, prefix string, adopt bool, idle bool) {
 	g := goid()
 	s.mu.Lock()
 	t := s.byGoid[g]
@@ -157,7 +163,13 @@ func (s *Sched) park(label string, adopt bool, idle bool) {
 		}
 		s.nextID++
 		s.adoptSeq++
-		t = &Task{ID: s.nextID, Name: fmt.Sprintf("worker%d", s.adoptSeq), Group: s.AdoptGroup, resume: make(chan struct{}, 1), Daemon: true}
+		k := 0
+		for _, o := range s.tasks {
+			if o.Group == s.AdoptGroup && strings.HasPrefix(o.Name, prefix+"#") {
+				k++
+			}
+		}
+		t = &Task{ID: s.nextID, Name: fmt.Sprintf("%s#%d", prefix, k), Group: s.AdoptGroup, resume: make(chan struct{}, 1), Daemon: true}
 		s.tasks = append(s.tasks, t)
 		s.byGoid[g] = t
 	}
@@ -233,7 +245,19 @@ func (s *Sched) wait(t *Task) string {
 				return "crashed"
 			}
 			if ev.task == t {
-				return ev.kind
+				// an event may be stale (sent by an earlier park whose state
+				// the controller had already observed): trust the state
+				s.mu.Lock()
+				st := t.state
+				s.mu.Unlock()
+				switch st {
+				case tRunning:
+					continue
+				case tDone:
+					return "done"
+				default:
+					return "parked"
+				}
 			}
 			// another goroutine (adopted worker) reached its first park: fine
 		case <-timer.C:
@@ -299,6 +323,7 @@ func (s *Sched) Daemons(group string) []*Task {
 			out = append(out, t)
 		}
 	}
+	sort.Slice(out, func(i, j int) bool { return out[i].Name < out[j].Name })
 	return out
 }
 
